@@ -3,32 +3,65 @@ package main
 import (
 	"fmt"
 
-	"verifharness/mon"
 	"verifharness/world"
 )
 
 func main() {
 	world.InstallQuietLogger()
 	g := world.NewG(nil)
-	z0 := g.AddNode(4, "z0")
-	t28 := g.AddNode(28, "")
-	g.Sc.Nodes[t28].Lookups = []string{"z0"}
-	g.SetTag(z0, "IA2", "wire", "verifharness/world/T28")
-	g.SetTag(t28, "IA1", "wire", "z0")
-	plan := map[string]world.SubPlan{"z0": {Before: true, Early: true, SameType: true}}
+	add := func(t int, name string) int { return g.AddNode(t, name) }
+	a0 := add(12, "a0")
+	e1 := add(8, "e1")
+	t25 := add(25, "")
+	a3 := add(25, "a3")
+	d4 := add(9, "d4")
+	v5 := add(22, "v5")
+	n6 := add(27, "n6")
+	add(2, "a7")
+	q8 := add(16, "q8")
+	N := g.Sc.Nodes
+	N[a0].FailOnce, N[a0].Lookups = []string{"init"}, []string{"n6"}
+	N[e1].FailOnce = []string{"init"}
+	N[t25].FailOnce = []string{"init"}
+	N[a3].Lookups = []string{"e1"}
+	N[d4].FailOnce = []string{"aps"}
+	N[n6].Lookups = []string{"a0"}
+	N[q8].FailOnce = []string{"init"}
+	g.SetTag(a0, "IA2", "wire", "verifharness/world/T25")
+	g.SetTag(e1, "Any1", "wire", "v5")
+	g.SetTag(e1, "IB1", "wire", "d4")
+	g.SetTag(t25, "IA1", "wire", "d4")
+	g.SetTag(t25, "IB0", "wire", "d4")
+	g.SetTag(a3, "IB1", "wire", "n6")
+	g.SetTag(d4, "IA0", "wire", "e1")
+	g.SetTag(d4, "IA1", "wire", "e1")
+	g.SetTag(v5, "Any0", "wire", "n6")
+	g.SetTag(v5, "IA0", "wire", "a3")
+	g.SetTag(v5, "IA1", "wire", "e1")
+	g.SetTag(n6, "IA0", "wire", "a0")
+	g.SetTag(n6, "IA2", "wire", "a0")
 	g.Sc.Order.DefMode = "sorted"
-	r := world.Start(g.Sc, world.Options{Extra: []any{world.NewSubstituter(plan)}})
-	fmt.Println("outcome:", r.OutcomeDetail())
-	for _, e := range r.Log.Events() {
-		fmt.Println(e.String())
-	}
-	for _, e := range r.Tracer.Events() {
-		if e.Name == "z0" || e.Name == "verifharness/world/T28" {
-			fmt.Printf("%d %*s%s %s(%s allow=%v) m%d err=%q %v\n", e.Seq, e.Depth*2, "", e.Phase, e.Op, e.Name, e.Allow, e.Meta, e.Err, e.Bool)
+	r := world.Start(g.Sc, world.Options{})
+	fmt.Println("outcome:", r.OutcomeDetail()[:100])
+	n0 := r.Log.Len()
+	for round := 0; round < 2; round++ {
+		for i := range g.Sc.Nodes {
+			name := g.Sc.Nodes[i].DisplayName()
+			o, err := r.App.GetComponentByName(name)
+			es := ""
+			if err != nil {
+				es = err.Error()
+				if len(es) > 90 {
+					es = es[:90]
+				}
+			}
+			fmt.Printf("round %d lookup %s -> %T err=%v\n", round, name, o, es)
 		}
 	}
-	_ = mon.Event{}
-	refs, _ := r.SlotRefs(r.Nodes[t28], "IA1")
-	got, err := r.App.GetComponentByName("z0")
-	fmt.Printf("T28.IA1=%v %p ; published z0 = %p %T err=%v\n", refs[0], refs[0].Obj, got, got, err)
+	for i, e := range r.Log.Events() {
+		if i == n0 {
+			fmt.Println("---- after Run")
+		}
+		fmt.Println(e.String())
+	}
 }
